@@ -167,6 +167,8 @@ def plan_C01(tier, rng):
         if not long_in:
             cs.parse(ep, other, 0, s, [cfgs[(i + 2) % len(cfgs)], cfgs[(i + 3) % len(cfgs)]], std=True)
     models = [("MC_BigNat.tla", "MC_BigNat.cfg", 4, 600), ("MC_Ieee.tla", "MC_Ieee.cfg", 4, 900)]
+    if not quick:
+        models.append(("MC_Pipeline.tla", "MC_Pipeline_ok.cfg", 8, 1800))
     return cs, models, {"input_families": cs.tags, "configurations": cfgs}
 
 
@@ -689,6 +691,8 @@ def plan_C19(tier, rng):
                 cs.parse(ep, F["name"], radix_fmt(r), s, rc, wo=True, opts=pf(exp=ec), tag="radix")
                 cs.parse(ep, F["name"], radix_fmt(r), s, rc, wo=True, opts=pf(exp=ec, lossy=True))
     models = [("MC_Ieee.tla", "MC_Ieee.cfg", 4, 900)]
+    if not quick:
+        models.append(("MC_Pipeline.tla", "MC_Pipeline_ok.cfg", 8, 1800))
     return cs, models, {"input_families": cs.tags, "configurations": cfgs}
 
 
@@ -840,6 +844,26 @@ def plan_C08(tier, rng):
             for v in gens.boundary_ints(ty, r, rng, 3 if quick else 20):
                 i += 1
                 cs.write(ep, ty, radix_fmt(r), str(v), [rc[i % len(rc)]], wo=True, tag="int", want_back=True)
+    # formats with syntax flags (required / forbidden signs, required / no exponent notation, ...) and the prebuilt
+    # language formats: writer and parser read the same packed format independently
+    Fm = fmt_tags()
+    flagged = [f for f in Fm.values() if ("prebuilt" in f["tags"] or f["name"].startswith("syn_")) and "rf" in cfgs]
+    for f in flagged:
+        r = 10
+        for (n_, a_) in f["calls"]:
+            if n_ in ("from_radix", "mantissa_radix", "radix"):
+                r = a_
+        ec = 112 if r == 16 else exp_char(r)
+        vals = writer_floats(F64, rng, 3 if quick else 40, 3 if quick else 40, extra_ints=False)
+        vals += [(gens.pyfloat_bits(F64, x), "handpicked") for x in (0.0, -0.0, 1.0, -1.5, 0.5, 1e10, 1e-7, 123456.789, 5e-324, 1.7976931348623157e308)]
+        for (bits, tag) in vals:
+            i += 1
+            ep = cs.new_ep()
+            for o in (wf(exp=ec), wf(exp=ec, pos=2, neg=-2), wf(exp=ec, trim=True)):
+                cs.write(ep, "f64", f["id"], bits, ["rf"], wo=True, opts=o, tag="float-flagged-format", want_back=True)
+        ep = cs.new_ep()
+        for v in (0, 1, -1, 255, -32768, 2147483647):
+            cs.write(ep, "i32", f["id"], str(v), ["rf"], wo=True, tag="int-flagged-format", want_back=True)
 
     def phase2(events, cs2):
         add_back(events, cs2)
